@@ -492,3 +492,122 @@ fire("c09_tr_single_not_marked", "C09", [(VISITOR, "                changes[fnam
 fire("c09_tr_keeps_unmarked", "C09", [(VISITOR, "        changes = {fname: changes[fname] for fname in field_names_with_changes}\n", "")], "R-TRANSFORM-PATH")
 fire("c09_generic_visit_copies", "C09", [(VISITOR, "        if not changes:\n            return node\n", "")], "R-IDENT-RETURN")
 silent("c09_equivalent", "C09", [(VISITOR, "        if not changes:\n            return node\n\n        # Return a new node with the changes\n        return replace(node, **changes)", "        if changes:\n            return replace(node, **changes)\n        return node")])
+
+# ---------------------------------------------------------------- C07
+fire("c07_F05_reverted", "C07", [(XPATH, '        return int("".join(args))\n', "        return int(args[0])\n")], "R-GRAM-ARITY")
+fire("c07_F06_reverted", "C07", [(XPATH, "                        c_info = _as_root(d_info)\n", "                        c_info = d_info\n")], "R-XP-ROOT")
+fire("c07_F06_reverted2", "C07", [(XPATH, "                        c_info = _as_root(NodeTraversalInfo(c, n_info.node, f, i))", "                        c_info = NodeTraversalInfo(c, n_info.node, f, i)")], "R-XP-ROOT")
+fire("c07_pred_ignores_index", "C07", [(XPATH, "        and (element.parent_index is None or element.parent_index == n_info.findex)\n", "")], "R-XP-SHARED")
+fire("c07_pred_field_or", "C07", [(XPATH, "            or (n_info.field is not None and element.parent_field == n_info.field.name)", "            or (n_info.field is None or element.parent_field == n_info.field.name)")], "R-XP-SHARED")
+fire("c07_pred_exact_type", "C07", [(XPATH, "        isinstance(n_info.node, element.ast_class)\n", "        type(n_info.node) is element.ast_class\n")], "R-XP-SHARED")
+fire("c07_anywhere_direct_children", "C07", [(XPATH, "                    for d_info in n_info.node.dfs():", "                    for d_info in n_info.node.bfs(prune=lambda x: True):")], "R-XP-ANYWHERE")
+fire("c07_match_last_ignores_root", "C07", [(XPATH, "        return element.anywhere or c_parent is None\n", "        return True\n")], "R-XP-ANYWHERE")
+fire("c07_match_anywhere_only_parent", "C07", [(XPATH, '''        for ancestor in tree.get_ancestors(node):
+            if _match_node_xpath(tree, ancestor, tail):
+                return True
+''', '''        return _match_node_xpath(tree, c_parent, tail)
+''')], "R-XP-ANYWHERE")
+fire("c07_match_direct_uses_ancestors", "C07", [(XPATH, "        return _match_node_xpath(tree, c_parent, tail)\n\n    # No match", "        return any(_match_node_xpath(tree, a, tail) for a in tree.get_ancestors(node))\n\n    # No match")], "R-XP-ANYWHERE")
+fire("c07_find_last", "C07", [(NODE, "            return next(xpath.findall(self))\n", "            return list(xpath.findall(self))[-1]\n")], "R-XP-FIND")
+silent("c07_equivalent_pred", "C07", [(XPATH, '''    if (
+        isinstance(n_info.node, element.ast_class)
+        and (
+            element.parent_field is None
+            or (n_info.field is not None and element.parent_field == n_info.field.name)
+        )
+        and (element.parent_index is None or element.parent_index == n_info.findex)
+    ):
+        return True
+
+    return False
+''', '''    if not isinstance(n_info.node, element.ast_class):
+        return False
+    if element.parent_field is not None:
+        if n_info.field is None or n_info.field.name != element.parent_field:
+            return False
+    return element.parent_index is None or n_info.findex == element.parent_index
+''')])
+
+# ---------------------------------------------------------------- C08
+fire("c08_pat_regex_search", "C08", [(PATTERN, "        if self.pattern.match(str(value)) is not None:", "        if self.pattern.search(str(value)) is not None:")], "R-API-RE")
+fire("c08_pat_regex_fullmatch", "C08", [(PATTERN, "        if self.pattern.match(str(value)) is not None:", "        if self.pattern.fullmatch(str(value)) is not None:")], "R-API-RE")
+fire("c08_pat_var_eq", "C08", [(PATTERN, '''        if isinstance(var_value, ASTNode):
+            # Using content based equality for ASTNodes
+            return (var_value.is_equal(value), {})
+
+''', "")], "R-NODE-EQ")
+fire("c08_pat_value_eq", "C08", [(PATTERN, "            return (self.value.is_equal(value), {})", "            return (self.value == value, {})")], "R-NODE-EQ")
+fire("c08_pat_seq_no_len", "C08", [(PATTERN, '''        if (not any_tail and len(value) != len(self.matchers)) or (
+            any_tail and len(value) < len(self.matchers)
+        ):
+            return (False, {})
+''', "")], "R-ZIPGUARD")
+fire("c08_F07_reverted", "C08", [(PATTERN, "any_tail and len(value) < len(self.matchers)\n", "any_tail and len(value) < len(self.matchers) - 1\n")], "R-ZIPGUARD")
+fire("c08_seq_no_tail_ge", "C08", [(PATTERN, "not any_tail and len(value) != len(self.matchers)", "not any_tail and len(value) < len(self.matchers)")], "R-ZIPGUARD")
+fire("c08_pat_types_subclass", "C08", [(PATTERN, "        if not isinstance(value, self.types):", "        if not isinstance(value, self.types[0]):")], "R-TYPES-ALL")
+fire("c08_types_exact", "C08", [(PATTERN, "        if not isinstance(value, self.types):", "        if type(value) not in self.types:")], "R-TYPES-ALL")
+fire("c08_capture_copy", "C08", [(PATTERN, "        return (True, {self.name: value, **new_vars})", "        return (True, {self.name: str(value), **new_vars})")], "R-CAPTURE")
+fire("c08_failure_keeps_captures", "C08", [(PATTERN, "        if not ok:\n            return (False, {})\n\n        if self.name is None:", "        if not ok:\n            return (False, new_vars)\n\n        if self.name is None:")], "R-CAPTURE")
+fire("c08_tail_slice_off", "C08", [(PATTERN, "self.tail_matcher.match(value[len(self.matchers) :], local_ctx)", "self.tail_matcher.match(value[len(self.matchers) + 1 :], local_ctx)")], "R-CAPTURE")
+fire("c08_F08_reverted", "C08", [(PATTERN, '''class AnyMatcher(BaseMatcher):
+    def _match''', '''class AnyMatcher(BaseMatcher):
+    _instance: t_ClassVar[AnyMatcher | None] = None
+
+    def __new__(cls, *args: Any, **kwargs: Any) -> AnyMatcher:
+        if cls._instance is None:
+            cls._instance = object.__new__(cls)
+        return cls._instance
+
+    def _match'''), (PATTERN, "from typing import (\n", "from typing import ClassVar as t_ClassVar\nfrom typing import (\n")], "R-SINGLETON-STATE")
+fire("c08_F09_reverted", "C08", [(PATTERN, "    tail_matcher: AnyMatcher | None = field(default=None, kw_only=True)", "    tail_matcher: AnyMatcher | None = field(default=None, init=False)")], "R-POSTINIT-IDEMP")
+fire("c08_match_stateful", "C08", [(PATTERN, "        if not isinstance(value, self.types):\n            return (False, {})\n", "        if not isinstance(value, self.types):\n            return (False, {})\n        ctx.update({\"_last\": value})\n")], "R-PURE-MATCH")
+fire("c08_cache_failed", "C08", [(PATTERN, "        except ASTPatternDefinitionError as e:\n            return None, e.message\n        except Exception as e:\n            if logger.isEnabledFor(logging.DEBUG):\n                logger.debug(f\"Unexpected error during pattern definition grammar generation: {e}\")\n            return None, \"Incorrect pattern definition. Unexpected error\"\n\n        _MATCHER_CACHE",
+      "        except ASTPatternDefinitionError as e:\n            matcher = None  # type: ignore\n        except Exception as e:\n            if logger.isEnabledFor(logging.DEBUG):\n                logger.debug(f\"Unexpected error during pattern definition grammar generation: {e}\")\n            return None, \"Incorrect pattern definition. Unexpected error\"\n\n        _MATCHER_CACHE")], "R-PURE-MATCH")
+fire("c08_multi_last_match", "C08", [(PATTERN, "            if ok:\n                return rule, capture_dict\n\n        return None", "            if ok:\n                res = (rule, capture_dict)\n\n        return res")], "R-MULTI-ORDER")
+silent("c08_equivalent", "C08", [(PATTERN, '''        if (not any_tail and len(value) != len(self.matchers)) or (
+            any_tail and len(value) < len(self.matchers)
+        ):
+            return (False, {})
+''', '''        if any_tail:
+            if len(self.matchers) > len(value):
+                return (False, {})
+        elif len(value) != len(self.matchers):
+            return (False, {})
+''')])
+
+# ---------------------------------------------------------------- C17
+fire("c17_xpath_no_catch_all", "C17", [(XPATH, "        except Exception as e:\n            raise ASTXpathDefinitionError(\"Incorrect xpath definition\") from e\n", "")], "R-EXC-ESCAPE")
+fire("c17_xpath_parse_outside_try", "C17", [(XPATH, "        try:\n            # Reversed list used for matching from the node UP to the root\n            self._elements_reversed = cast(", "        xpath_parser.parse(xpath)\n        try:\n            # Reversed list used for matching from the node UP to the root\n            self._elements_reversed = cast(")], "R-EXC-ESCAPE")
+fire("c17_from_pattern_no_catch_all", "C17", [(PATTERN, '''        except ASTPatternDefinitionError as e:
+            return None, e.message
+        except Exception as e:
+            if logger.isEnabledFor(logging.DEBUG):
+                logger.debug(f"Unexpected error during pattern definition grammar generation: {e}")
+            return None, "Incorrect pattern definition. Unexpected error"
+
+        _MATCHER_CACHE''', '''        except ASTPatternDefinitionError as e:
+            return None, e.message
+
+        _MATCHER_CACHE''')], "R-EXC-ESCAPE")
+fire("c17_validate_reraises", "C17", [(PATTERN, '''    except ASTPatternDefinitionError as e:
+        return False, e.message
+    except Exception as e:
+        if logger.isEnabledFor(logging.DEBUG):
+            logger.debug(f"Unexpected error during pattern definition grammar generation: {e}")
+        return False, "Incorrect pattern definition. Unexpected error"
+''', '''    except ASTPatternDefinitionError as e:
+        return False, e.message
+    except Exception as e:
+        if logger.isEnabledFor(logging.DEBUG):
+            logger.debug(f"Unexpected error during pattern definition grammar generation: {e}")
+        raise
+''')], "R-EXC-ESCAPE")
+fire("c17_multi_wrong_error", "C17", [(PATTERN, '            raise ASTPatternDefinitionError("Pattern names must be unique")', '            raise ValueError("Pattern names must be unique")')], "R-EXC-ESCAPE")
+fire("c17_sibling_diverge", "C17", [(PATTERN, '''    except ASTPatternDefinitionError as e:
+        return False, e.message
+''', '''    except ASTPatternDefinitionError as e:
+        return True, e.message
+''')], "R-ENTRY-SIBLING")
+fire("c17_grammar_new_rule", "C17", [("src/pyoak/match/grammar.py", 'value: tree | var | NONE | ESCAPED_STRING', 'value: tree | var | NONE | ESCAPED_STRING | neg\n\nneg: "!" value')], "R-GRAM-EXH")
+fire("c17_no_ws_ignore", "C17", [("src/pyoak/match/grammar.py", "%ignore WS\n", "")], "R-WS")
+silent("c17_baseexception", "C17", [(XPATH, "        except Exception as e:\n            raise ASTXpathDefinitionError(\"Incorrect xpath definition\") from e\n", "        except BaseException as err:\n            raise ASTXpathDefinitionError(\"Incorrect xpath definition\") from err\n")])
